@@ -233,6 +233,8 @@ def gen_pool(rng):
         add("optimize-path-list", optimize=[list(p) for p in lin], as_list=True)
         other = gen.tree_to_ssa(gen.rand_tree(rng, n), n)
         add("optimize-other-path", optimize=[list(int(i) for i in p) for p in ssa_to_linear(other, n)])
+    if n > 1 and rng.random() < 0.5:
+        add("optimize-invalid-path", optimize=[[0, n + 3]])   # both cached and uncached calls must fail alike
     add("kw-strip_exponent", kwargs={"strip_exponent": True})
     add("kw-prefer_einsum", kwargs={"prefer_einsum": True})
     add("kw-implementation", kwargs={"implementation": rng.choice(["cotengra", "autoray"])})
@@ -540,7 +542,8 @@ def check_history(ctx, drv, hist):
                 continue
         if "path" in o:
             n = len(spec["net"]["inputs"])
-            if not _valid_path(n, o["path"]):
+            if not isinstance(spec["optimize"], list) and not _valid_path(n, o["path"]):
+                # (an explicit path is handed back verbatim, valid or not -- cached or not)
                 bad.append((i, site, "invalid-path", {"path": o["path"], "N": n}, {"component": comp}))
                 continue
             if spec["optimize"] in ("greedy", "optimal") or isinstance(spec["optimize"], list):
